@@ -55,6 +55,7 @@ import Proofs.LiftSplit
 import Proofs.InsertSuccess
 import Proofs.JoinPointSuccess
 import Proofs.RetypeSuccess
+import Proofs.FitTopLevel
 namespace PM.C12
 open PM
 
@@ -1899,6 +1900,111 @@ theorem insertPoint_insert_text_applies (S : Schema) (hts : C01.TextStable S) (d
 example : ∃ doc', exSchema.apply (.replace 2 2 ⟨[.text [120] []], 0, 0⟩ false) exDocT = .ok doc' ∧
     C01.Valid exSchema doc' :=
   (insertPoint_insert_text_applies exSchema ex_stable exDocT 2 2 (.text [120] []) rfl rfl rfl rfl rfl rfl rfl rfl rfl).2
+
+/-! ### a node with marks the parent does not allow, at a top-level insert point: the Fitter's run evaluated
+
+    When the insert point is a child boundary of the top node (depth 0, the top node not a textblock: `topBoundary`), the
+    Fitter's run on `Slice([n], 0, 0)` is short enough to evaluate exactly (Proofs/FitTopLevel.lean): `find_fittable` hits at
+    once, `place_nodes` places `n` with the disallowed marks dropped, `close` finds level 0 with nothing to fill.  This is
+    the case found on the real code (a marked block node into `doc`).  For deeper insert points the same statement is
+    `insertPoint_insert_succeeds_marked_partial` (the Fitter's answer as a hypothesis; on the real code and on the model's
+    Fitter it held in every case the tie ran). -/
+
+/-- **`insert_point` answers a top-level `p` ∧ the parent does not allow the node's marks ⇒ `tr.insert(p, n)` plans
+    `ReplaceStep(p, p, Slice([n with those marks dropped], 0, 0))` through the Fitter, the step applies and the result is
+    schema-valid** -/
+theorem insertPoint_insert_marked_top (S : Schema) (hts : C01.TextStable S) (doc : Node) (pos : Nat) (ty : TypeId)
+    (p : Nat) (n : Node) (hdoc : C01.IsElem doc) (hv : C01.Valid S doc) (hn : fnorm doc.kids = true)
+    (hvn : S.checkNode (strippedAt S doc p n) = true) (hnn : n.norm = true) (hty : S.tyOf n = ty)
+    (htop : topBoundary S doc p = true) (hm : marksAllowedAt S doc p n = false)
+    (hc : insertPoint S doc pos ty = some (some p)) :
+    replaceStep S doc p p ⟨[n], 0, 0⟩ = .ok (some (.replace p p ⟨[strippedAt S doc p n], 0, 0⟩ false)) ∧
+    ∃ doc', S.apply (.replace p p ⟨[strippedAt S doc p n], 0, 0⟩ false) doc = .ok doc' ∧ C01.Valid S doc' := by
+  obtain ⟨_, rp, hrp, hrs⟩ := insertPoint_marked_through_fitter S doc pos ty p n hdoc hn hnn hty hm hc
+  have Rp := resolve_resolved hrp
+  simp only [topBoundary, hrp, Bool.and_eq_true, beq_iff_eq, Bool.not_eq_true'] at htop
+  obtain ⟨⟨hd0, hto⟩, hnt⟩ := htop
+  have hnode0 : rp.node 0 = doc := Rp.node_zero
+  have hpar : rp.parent = doc := by simp [RPos.parent, hd0, hnode0]
+  -- what `insert_point` established, read at `p`
+  have hcrp : S.nodeCanReplaceWith doc (rp.index 0) (rp.index 0) ty = some true := by
+    unfold insertPoint at hc
+    cases hr : doc.resolve pos with
+    | none => simp [hr] at hc
+    | some r =>
+      simp only [hr] at hc
+      have R := resolve_resolved hr
+      cases doc with
+      | text s m => simp [C01.IsElem, Node.isLeaf] at hdoc
+      | leaf t a m => simp [C01.IsElem, Node.isLeaf] at hdoc
+      | elem ty0 a0 m0 K =>
+        rcases insertPointR_spec S r ty p hc with ⟨hp, hcr⟩ | ⟨d, sd, i, hd, hat, hcr⟩
+        · rw [hp, R.pos_eq] at hrp
+          rw [hr] at hrp
+          simp only [Option.some.injEq] at hrp
+          subst hrp
+          rw [hpar, hd0] at hcr
+          exact hcr
+        · obtain ⟨rp', hrp', htyp, hk, hi, _⟩ := boundary_resolve S hr (by simpa [Node.kids] using hn) d sd i p
+            (.inl hd) hat
+          rw [hrp] at hrp'
+          simp only [Option.some.injEq] at hrp'
+          subst hrp'
+          rw [hpar] at htyp hk
+          rw [hd0] at hi
+          unfold Schema.nodeCanReplaceWith at hcr ⊢
+          rw [← htyp, ← hk, ← hi] at hcr
+          exact hcr
+  have hia : rp.indexAfter 0 = rp.index 0 := by simp [RPos.indexAfter, hd0, hto]
+  -- the automaton states the Fitter walks through
+  have hvd : S.validContent (S.tyOf doc) doc.kids = true := by
+    cases doc with
+    | text s m => simp [C01.IsElem, Node.isLeaf] at hdoc
+    | leaf t a m => simp [C01.IsElem, Node.isLeaf] at hdoc
+    | elem ty0 a0 m0 K =>
+      have : S.checkNode (.elem ty0 a0 m0 K) = true := hv
+      simp only [checkNode_elem, Bool.and_eq_true] at this
+      exact this.1.1
+  have hmk : invalidMarks S (S.tyOf doc) (doc.kids.drop (rp.index 0)) = false := by
+    have hall := allowsMarks_of_valid S _ _ hvd
+    simp only [invalidMarks, List.any_eq_false, Bool.not_eq_true', Bool.not_eq_false]
+    intro c hcm
+    exact hall c (List.mem_of_mem_drop hcm)
+  unfold Schema.nodeCanReplaceWith Schema.canReplaceWith at hcrp
+  simp only [List.isEmpty_nil, Bool.not_true, Bool.false_and, Bool.false_eq_true, if_false] at hcrp
+  split at hcrp
+  · simp at hcrp
+  · split at hcrp
+    · simp at hcrp
+    · rename_i q hq
+      split at hcrp
+      · simp at hcrp
+      · rename_i q' hq'
+        split at hcrp
+        · simp at hcrp
+        · rename_i q2 hq2
+          simp only [Option.some.injEq] at hcrp
+          have hfit := fitterFit_top S doc rp n hd0 (by rw [hnode0]; exact hnt) q q' q2
+            (by rw [hnode0, hia]; exact hq) (by rw [hnode0, hty]; exact hq') (by rw [hnode0]; exact hq2)
+            (by rw [hnode0]; exact hcrp) (by rw [hnode0]; exact hmk)
+            (by have := Node.size_pos_of_norm n hnn; omega) (fitMeasure ⟨[n], 0, 0⟩ (0 + 1))
+          have hstrip : strippedAt S doc p n = n.withMarks ((S.nodeType (S.tyOf (rp.node 0))).allowedMarks n.marks) := by
+            simp [strippedAt, hrp, hpar, hnode0]
+          have hstep : replaceStep S doc p p ⟨[n], 0, 0⟩
+              = .ok (some (.replace p p ⟨[strippedAt S doc p n], 0, 0⟩ false)) := by
+            rw [hrs, hstrip]
+            have : fitFuel S ⟨[n], 0, 0⟩ = fitMeasure ⟨[n], 0, 0⟩ (0 + 1) + 1 := rfl
+            rw [this, hfit, Rp.pos_eq]
+          refine ⟨hstep, ?_⟩
+          have hg : insideTextGuard S doc p [strippedAt S doc p n] = true := by
+            simp [insideTextGuard, hrp, insideTextGuardR, hto]
+          exact insertPoint_insert_succeeds_marked_partial S hts doc pos ty p n hdoc hv hn hvn hnn hty hg hc hstep
+
+/-- a non-trivial instance of all hypotheses: the paragraph carrying `em` at position 0 of `exDoc` in `insMarkSchema` -/
+example : ∃ doc', insMarkSchema.apply (.replace 0 0 ⟨[.elem 2 [] [] []], 0, 0⟩ false) exDoc = .ok doc' ∧
+    C01.Valid insMarkSchema doc' :=
+  (insertPoint_insert_marked_top insMarkSchema (textStable_of_C _ (by decide)) exDoc 0 2 0 (.elem 2 [] [⟨0, []⟩] [])
+    rfl rfl rfl rfl rfl rfl rfl rfl rfl).2
 
 /-! ### INSERT-END -/
 
